@@ -113,6 +113,8 @@ TRANSPARENT = [
     ('option::Option::<T>::expect', 0, 'unwrap'),
     ('option::Option::<T>::unwrap_or', 0, 'unwrap_or'),
     ('result::Result::<T, E>::unwrap_or', 0, 'unwrap_or'),
+    ("self_referential::NodeRef::<'a, N>::as_ref", 0, 'as_ref'),
+    ("slice::iter::Iter::<'a, T>::as_slice", 0, 'as_ref'),
     ('option::Option::<T>::map', 0, 'map'),
     ('result::Result::<T, E>::map', 0, 'map'),
     ('::from_le_bytes', 0, 'from_le'),
